@@ -5,6 +5,7 @@ import (
 	"go/token"
 	"go/types"
 	"sort"
+	"strconv"
 	"strings"
 
 	"golang.org/x/tools/go/ssa"
@@ -476,6 +477,8 @@ func ruleSchema(r *Run) {
 				for _, s := range srcs {
 					if s.name == sf.Tag.Local || s.name == sf.Tag.Name {
 						good++
+					} else if strings.HasPrefix(s.name, "=constant ") {
+						bad = append(bad, fmt.Sprintf("a made-up value (%s, merged with the attribute's value at %s)", strings.TrimPrefix(s.name, "=constant "), p.pos(s.pos)))
 					} else {
 						bad = append(bad, fmt.Sprintf("%q at %s", s.name, p.pos(s.pos)))
 					}
@@ -591,6 +594,11 @@ func attrNamesFrom(m *readerModel, f *ssa.Function, val ssa.Value, blk *ssa.Basi
 			}
 		case *ssa.Phi:
 			for _, e := range x.Edges {
+				// a non-empty constant merged with the looked-up value: on some path the reader stores a
+				// value it made up instead of what the attribute says (or of nothing)
+				if cs, ok := constString(e); ok && cs != "" {
+					names = append(names, "=constant "+strconv.Quote(cs))
+				}
 				walk(e, depth+1)
 			}
 		case *ssa.Field:
